@@ -26,10 +26,10 @@ def https_variation(lru: bytes):
     Returning the http(s) variation of the given lru
     """
 
-    if b"s:http|" in lru:
-        return lru.replace(b"s:http|", b"s:https|", 1)
-    if b"s:https|" in lru:
-        return lru.replace(b"s:https|", b"s:http|", 1)
+    if lru.startswith(b"s:http|"):
+        return b"s:https|" + lru[len(b"s:http|") :]
+    if lru.startswith(b"s:https|"):
+        return b"s:http|" + lru[len(b"s:https|") :]
     return None
 
 
